@@ -18,7 +18,7 @@ ASSUMPTIONS = ["numpy / CPython behave as documented", "grid shapes are passed a
                "lattice_dim=2 only"]
 NSHARDS = {"quick": 16, "thorough": 16}
 THRESHOLDS = {
-    "quick": {"repotests:ambient:gen:gen_dfs?repotests:runs": 50, "c01:percolation-volume": 150, "c01:percolation-volume:side>127": 60, "c01:extreme-draws": 40, "c01:shape-dtype:int8": 300, "c01:shape-dtype:uint8": 300, "c01:shape-dtype:uint32": 300, "c01:wilson-unsigned-shape": 100, "c01:gen_dfs": 200, "c01:gen_prim": 200, "c01:gen_wilson": 200, "c01:gen_percolation": 200,
+    "quick": {"repotests:ambient:gen:gen_dfs?repotests:runs": 50, "c01:percolation-volume": 150, "c01:returned-maze-overwritten-by-caller": 1000, "c01:history:neighbour-arrays-rearranged-by-caller": 5000, "c01:percolation-volume:side>127": 60, "c01:extreme-draws": 40, "c01:shape-dtype:int8": 300, "c01:shape-dtype:uint8": 300, "c01:shape-dtype:uint32": 300, "c01:wilson-unsigned-shape": 100, "c01:gen_dfs": 200, "c01:gen_prim": 200, "c01:gen_wilson": 200, "c01:gen_percolation": 200,
               "c01:gen_dfs_percolation": 200, "c01:oblong": 1, "c01:one-by-n": 1, "c01:p0": 1, "c01:p1": 1,
               "c01:spanning-checked:dfs": 100, "c01:spanning-checked:wilson": 100, "c01:consumed-stream": 50,
               "hits:gen_dfs": 1, "hits:gen_wilson": 1, "hits:gen_percolation": 1, "hits:gen_dfs_percolation": 1,
@@ -43,6 +43,9 @@ def run(ctx):
 
         run_under_monitors(ctx)
     from maze_dataset.generation.generators import GENERATORS_MAP, LatticeMazeGenerators
+
+    if ctx.shard % 2 == 0:
+        _neighbour_helper_first(ctx)
 
     shapes = genwork.shapes(ctx, max_exh=6, n_random=30 if ctx.quick else 200, max_random=20 if ctx.quick else 40)
     reps = 8 if ctx.quick else 40
@@ -88,6 +91,14 @@ def run(ctx):
                             ctx.nontrivial(gen, R, C, sorted(kw.items(), key=repr), maze.connection_list)
                         if i % 997 == 0 or (ctx.shard == 0 and len(ctx.samples) < 3):
                             ctx.sample(dict(case=case, n_connections=int(maze.connection_list.sum())))
+                        # the maze handed back belongs to the caller: its connections are edited in place (all walls opened / closed);
+                        # the mazes generated afterwards are judged as usual
+                        if i % 2 == 0:
+                            try:
+                                maze.connection_list[...] = (i % 4 == 0)
+                                ctx.tally("c01:returned-maze-overwritten-by-caller")
+                            except Exception:  # noqa: BLE001
+                                pass
     _percolation_volume(ctx)
     _percolation_extreme_draws(ctx)
     # library-internal traffic: a few datasets (ambient monitor judges every generator call they make)
@@ -164,7 +175,7 @@ def _percolation_volume(ctx):
         p = [1, 1.0, 0, 0.0, 1.0, 1.0][j % 6]
         seed = ctx.case_seed("vol", j) % (2**32)
         np.random.seed(seed)
-        gname = "gen_dfs_percolation" if (j // 12) % 3 == 2 and p != 0 else "gen_percolation"
+        gname = "gen_dfs_percolation" if (j // 12) % 3 == 2 else "gen_percolation"
         case = dict(gen=gname, shape=(R, C), kwargs=dict(p=p), numpy_seed=seed)
         if max(R, C) > 127:
             ctx.tally("c01:percolation-volume:side>127")
@@ -177,12 +188,38 @@ def _percolation_volume(ctx):
             ctx.check(not cl[0, -1, :].any() and not cl[1, :, -1].any(), "C01/gen_percolation/edge-leaves-grid", "", case)
             n_conn = int(cl.sum())
             lattice = R * (C - 1) + C * (R - 1)
-            if p == 0:
+            if p == 0 and gname == "gen_dfs_percolation":
+                # (percolation adds nothing at p=0: what is left is the depth-first spanning tree)
+                ctx.check(n_conn == R * C - 1, "C01/gen_dfs_percolation/p0-not-the-spanning-tree", f"{n_conn} connections on {R}x{C}, a spanning tree has {R * C - 1}", case)
+            elif p == 0:
                 ctx.check(n_conn == 0, "C01/gen_percolation/p0-has-connection", f"{n_conn} connections on {R}x{C}", case)
             else:
                 miss = lattice - int(cl[0, :-1, :].sum()) - int(cl[1, :, :-1].sum())
                 ctx.check(miss == 0, "C01/gen_percolation/p1-missing-edge", lambda: f"{miss} of {lattice} lattice edges missing on {R}x{C} "
                           f"(first at {np.argwhere(~cl[0, :-1, :])[:1].tolist() or np.argwhere(~cl[1, :, :-1])[:1].tolist()})", case)
+
+
+def _neighbour_helper_first(ctx):
+    """history (half of the shards): the public neighbour helper of the generators is used by the caller's own code first, for every
+    cell of the small grids, and what it hands back is re-arranged in place (sorted, made relative to the cell)"""
+    from maze_dataset.generation import generators as G
+
+    fn = getattr(G, "get_neighbors_in_bounds", None)
+    if fn is None:
+        ctx.tally("c01:neighbour-helper-not-available(not judged)")
+        return
+    for R in range(1, 9):
+        for C in range(1, 9):
+            for r in range(R):
+                for c in range(C):
+                    try:
+                        nb = fn(np.array([r, c]), np.array([R, C]))
+                        if isinstance(nb, np.ndarray) and nb.size and nb.flags.writeable:
+                            nb.sort(axis=0)
+                            nb -= np.array([r, c])
+                        ctx.tally("c01:history:neighbour-arrays-rearranged-by-caller")
+                    except Exception:  # noqa: BLE001
+                        ctx.tally("c01:history:neighbour-helper-refused(not judged)")
 
 
 def _dataset_traffic(ctx):
